@@ -246,6 +246,10 @@ Definition run_C05 (op : N) (s : str) : val :=
 (* linear-time evaluation of rc for very long inputs (stdlib rev is quadratic); C05_Lemmas.run_C05_lin_eq proves it equal *)
 Definition run_C05_lin (op : N) (s : str) : val :=
   match op with
+  | 0%N => run_C05 0%N s
   | 1%N => VS (complement (rev_append s []))
-  | _ => run_C05 op s
+  | 2%N => VS (rev_append (complement s) [])
+  | 3%N => VS (complement (rev_append (complement (rev_append s [])) []))
+  | 4%N => run_C05 4%N s
+  | _ => VS (rev_append s [])
   end.
